@@ -228,7 +228,8 @@ class Check:
     def _tlc(self, module, cfg, extra, env, timeout, workers, heap="8g", deque=False):
         meta = tempfile.mkdtemp(prefix="tlc-", dir=self.scratch)
         jopts = (["-XX:+UseSerialGC"] if int(workers) == 1 else
-                 ["-XX:+UseParallelGC", "-XX:ParallelGCThreads=%d" % max(2, int(workers) // 2)]) + ["-Xmx" + heap, "-Xss128m"]
+                 ["-XX:+UseParallelGC", "-XX:ParallelGCThreads=%d" % max(2, int(workers) // 2)]) + ["-Xmx" + heap, "-Xss128m",
+                                                                                                 "-Djava.io.tmpdir=" + self.scratch]   # TLC leaves an empty tlc-<n> directory per run in the JVM's temp dir
         if deque:
             jopts.append("-Dtlc2.tool.queue.IStateQueue=StateDeque")
         cmd = ["java"] + jopts + ["-cp", TLAJAR, "tlc2.TLC", "-workers", str(workers),
